@@ -3,6 +3,7 @@
 Fail-closed: an unrecognised shape appends to `problems` and the default (the value in the repaired tree) is
 emitted so that Gen/Facts_C12.v still type-checks."""
 import ast
+import json
 import os
 from harness.common import facts as F
 
@@ -44,9 +45,104 @@ def _encoding_of_policy(fn, default_enc, where, problems):
     return encs[0]
 
 
+def masked_shape(node):
+    """shape of a configuration directive with its introspection bookkeeping blanked: the statements
+    `intr = self.introspectable(..)` and `intr[..] = ..` (C20's subject) are dropped, everything else counts"""
+    node = F.strip_doc(node)
+
+    class Drop(ast.NodeTransformer):
+        def visit_Assign(self, st):
+            tg = st.targets[0] if len(st.targets) == 1 else None
+            if isinstance(tg, ast.Name) and tg.id == 'intr':
+                return None
+            if isinstance(tg, ast.Subscript) and isinstance(tg.value, ast.Name) and tg.value.id == 'intr':
+                return None
+            return self.generic_visit(st)
+    node = Drop().visit(node)
+    import hashlib
+    return hashlib.sha1(ast.dump(node).encode()).hexdigest()[:16]
+
+
+def compute_masked(src, spec):
+    out = {}
+    for rel, quals in spec.items():
+        m = F.Module(src, rel)
+        out[rel] = {q: masked_shape(m.find(q)) for q in quals}
+    return out
+
+
+def check_masked(src, problems, summary):
+    with open(os.path.join(HERE, 'pins_masked.json')) as f:
+        pins = json.load(f)
+    for rel, quals in pins.items():
+        try:
+            m = F.Module(src, rel)
+        except (OSError, SyntaxError) as e:
+            problems.append('cannot parse %s: %s' % (rel, e))
+            continue
+        for q, want in quals.items():
+            node = m.find(q)
+            got = masked_shape(node) if node is not None else 'missing'
+            summary['masked %s:%s' % (rel, q)] = got
+            if got != want:
+                problems.append('masked shape pin %s:%s changed (%s -> %s): apart from its introspectable bookkeeping the '
+                                'directive is no longer the text the model follows' % (rel, q, want, got))
+
+
+def class_level_facts(src, problems):
+    """class bodies / decorators the model relies on and no function pin sees"""
+    try:
+        m = F.Module(src, 'pyramid/csrf.py')
+        want = ast.dump(ast.parse('_token_factory = staticmethod(lambda: text_(uuid.uuid4().hex))').body[0])
+        for cls in ('SessionCSRFStoragePolicy', 'CookieCSRFStoragePolicy'):
+            c = m.find(cls)
+            tf = [st for st in c.body if isinstance(st, ast.Assign) and any(
+                isinstance(t, ast.Name) and t.id == '_token_factory' for t in st.targets)]
+            if len(tf) != 1 or ast.dump(tf[0]) != want:
+                problems.append('%s._token_factory is not `staticmethod(lambda: text_(uuid.uuid4().hex))`: the minted token '
+                                'is assumed non-empty and unguessable' % cls)
+        imp = [st for st in m.tree.body if isinstance(st, ast.Import) and any(a.name == 'uuid' and a.asname is None for a in st.names)]
+        if len(imp) != 1 or any(isinstance(st, (ast.Assign, ast.FunctionDef, ast.ClassDef)) and
+                                getattr(st, 'name', None) == 'uuid' for st in m.tree.body):
+            problems.append('csrf.py: `import uuid` not found exactly once')
+        for cls in ('LegacySessionCSRFStoragePolicy', 'SessionCSRFStoragePolicy', 'CookieCSRFStoragePolicy'):
+            c = m.find(cls)
+            if [ast.dump(d) for d in c.decorator_list] != [ast.dump(ast.parse('implementer(ICSRFStoragePolicy)').body[0].value)]:
+                problems.append('%s: decorators are not exactly @implementer(ICSRFStoragePolicy)' % cls)
+    except Exception as e:
+        problems.append('csrf.py class-level facts: %r' % (e,))
+    try:
+        m = F.Module(src, 'pyramid/session.py')
+        c = m.find('BaseCookieSessionFactory.CookieSession')
+        body = {}
+        for st in c.body:
+            if isinstance(st, ast.Assign) and len(st.targets) == 1 and isinstance(st.targets[0], ast.Name):
+                body.setdefault(st.targets[0].id, []).append(ast.dump(st.value))
+        for name, expr in (('get', 'manage_accessed(dict.get)'), ('__setitem__', 'manage_changed(dict.__setitem__)')):
+            if body.get(name) != [ast.dump(ast.parse(expr).body[0].value)]:
+                problems.append('CookieSession.%s is not `%s` (the session policy reads / stores the token through it)' % (name, expr))
+        if [ast.dump(b) for b in c.bases] != [ast.dump(ast.parse('dict').body[0].value)]:
+            problems.append('CookieSession is no longer a plain dict subclass')
+        for meth, deco in (('get_csrf_token', 'manage_accessed'), ('new_csrf_token', 'manage_changed')):
+            f = m.find('BaseCookieSessionFactory.CookieSession.' + meth)
+            if f is None or [ast.dump(d) for d in f.decorator_list] != [ast.dump(ast.parse(deco).body[0].value)]:
+                problems.append('CookieSession.%s is not decorated with exactly @%s' % (meth, deco))
+        outer = m.find('BaseCookieSessionFactory')
+        tail = [st for st in outer.body if not isinstance(st, ast.ClassDef)
+                and not (isinstance(st, ast.Expr) and isinstance(st.value, ast.Constant))]
+        if [ast.dump(st) for st in tail] != [ast.dump(ast.parse('return CookieSession').body[0])] if False else \
+                not (len(tail) == 1 and isinstance(tail[0], ast.Return) and isinstance(tail[0].value, ast.Name)
+                     and tail[0].value.id == 'CookieSession'):
+            problems.append('BaseCookieSessionFactory does more than define and return CookieSession')
+    except Exception as e:
+        problems.append('session.py class-level facts: %r' % (e,))
+
+
 def extract(src):
     problems = []
     summary = F.check_shapes(src, os.path.join(HERE, 'pins.json'), problems)
+    check_masked(src, problems, summary)
+    class_level_facts(src, problems)
     v = {
         # defaults = the repaired tree
         'copies_trusted': True, 'catches_valueerror': True,
